@@ -358,5 +358,67 @@ def rfwd_forwarding(chk: Check) -> None:
     shared.forwarding_rule(chk, "C03.FWD", ('generation/coverage.py:', 'generation/meta.py:'), "coverage value labels", 2)
 
 
+def r7_merged_pattern_width_checked(chk: Check) -> None:
+    chk.rule("C03.R7", "MUST-PASS(length bounds merged into a pattern -> use of that pattern, width test): update_quantifier writes minLength / maxLength into a REPETITION count; wherever the coverage phase generates from the merged pattern, a test of its match width against the bounds (`getwidth()`) lies on every path between the merge and the use - otherwise `^(ab)+$` with 4..6 yields POSITIVE values of 8, 10 and 12 characters and the valid `ababab` as the NEGATIVE `String smaller than minLength`", floor=2)
+    P = chk.project
+    mod = P.module(COV)
+
+    def width_evidence(fn: FuncInfo, e: ast.AST) -> bool:
+        for c in ast.walk(e):
+            if isinstance(c, ast.Call):
+                if last_attr(c) == "getwidth":
+                    return True
+                r = P.resolve_call(fn, c)
+                if r and r[0] == "func" and any(isinstance(x, ast.Call) and last_attr(x) == "getwidth" for x in ast.walk(r[1].node)):  # type: ignore[union-attr]
+                    return True
+        return False
+
+    n = 0
+    for fn in mod.functions.values():
+        if isinstance(fn.node, ast.Lambda):
+            continue
+        calls_ = [c for c in body_calls(fn) if isinstance(c.func, ast.Name) and c.func.id == "update_quantifier"]
+        if not calls_:
+            continue
+        g = cfg_of(fn)
+        tests = [t.id for t in g.live() if t.kind == "test" and t.ast is not None and width_evidence(fn, t.ast)]
+        for c in calls_:
+            n += 1
+            st_ = stmt_of(c)
+            construct = f"{fn.name}: the pattern merged at line-independent site `{unparse(st_, 50)}` is width-checked before use"
+            tgt = None
+            if isinstance(st_, ast.Assign) and len(st_.targets) == 1:
+                tgt = unparse(st_.targets[0])
+            if tgt is None:
+                chk.undecided("C03.R7", fn, construct, "result of update_quantifier is not bound to a name / item", fn.loc(c))
+                continue
+            start = g.nodes_of(st_)
+            # uses: later statements that read the bound name / item (other than pure tests)
+            base = st_.targets[0].value.id if isinstance(st_.targets[0], ast.Subscript) and isinstance(st_.targets[0].value, ast.Name) else None
+            def _reads(x_ast: ast.AST) -> bool:
+                for y in ast.walk(x_ast):
+                    if unparse(y) == tgt and isinstance(getattr(y, "ctx", None), ast.Load):
+                        return True
+                    # the container that now carries the merged pattern is handed on as a whole
+                    if base is not None and isinstance(y, ast.Call) and any(isinstance(a_, ast.Name) and a_.id == base for a_ in y.args):
+                        return True
+                return False
+
+            uses = [x.id for x in g.live() if x.kind in ("stmt", "return") and x.ast is not None and x.ast is not st_ and _reads(x.ast)]
+            reach = [u for u in uses if g.path(start, [u], edge_ok=lambda a, b, lbl: not lbl.startswith("exc:")) is not None]
+            if not reach:
+                chk.ok("C03.R7", fn, construct, "merged pattern is not used further", fn.loc(c))
+                continue
+            w = g.path(start, reach, avoid=tests, edge_ok=lambda a, b, lbl: not lbl.startswith("exc:"))
+            if w is None:
+                chk.ok("C03.R7", fn, construct, "", fn.loc(c))
+            else:
+                chk.violation("C03.R7", fn, construct,
+                              "the merged pattern reaches its use without any test of its match width: the quantifier counts repetitions of a possibly multi-character element, so the generated string can be far outside minLength..maxLength while it is labelled by those bounds",
+                              fn.loc(c), g.describe_path(w, mod.relpath))
+    if n < 2:
+        chk.undecided("C03.R7", "<discovery>", f"calls={n}", "fewer update_quantifier calls in coverage.py than confirmed by hand")
+
+
 def rules(tier: str) -> list:  # type: ignore[type-arg]
-    return [r1_label_source, r2_yield_discipline, r3_bound_presence, r4_description_protocol, r5_documented_methods, r6_floor_arithmetic, rfwd_forwarding]
+    return [r1_label_source, r2_yield_discipline, r3_bound_presence, r4_description_protocol, r5_documented_methods, r6_floor_arithmetic, rfwd_forwarding, r7_merged_pattern_width_checked]
